@@ -1,0 +1,183 @@
+//go:build verif
+
+package type3
+
+import (
+	. "github.com/cloudflare/pat-go/internal/vspec"
+	"github.com/cloudflare/pat-go/tokens"
+)
+
+var _ = tokens.SpecTokenInput
+
+// specPadLen is the padded length of an origin name of k bytes: the next
+// multiple of 32, one block for the empty name.
+//
+//@ spec
+func specPadLen(k int) int {
+	if k == 0 {
+		return 32
+	}
+	return (k + 31) / 32 * 32
+}
+
+//@ func padOriginName(originName string) (res []byte)
+//@ props C20 C16
+//@ ensures len(res) == specPadLen(len(originName))
+//@ ensures string(res[:len(originName)]) == originName
+//@ ensures forall(len(originName), len(res), func(i int) bool { return res[i] == 0 })
+//@ ensures fresh(res)
+//@ assigns none
+//@ end
+
+//@ func unpadOriginName(paddedOriginName []byte) (res string)
+//@ props C03 C20 C16 C07
+//@ ensures len(res) <= len(paddedOriginName) && res == string(paddedOriginName[:len(res)])
+//@ ensures forall(len(res), len(paddedOriginName), func(i int) bool { return paddedOriginName[i] == 0 })
+//@ ensures len(res) > 0 ==> res[len(res)-1] != 0
+//@ assigns none
+//@ alloc 0
+//@ loop 0 vars(lastNonZero int)
+//@   invariant -1 <= lastNonZero && lastNonZero < len(paddedOriginName)
+//@   invariant forall(lastNonZero+1, len(paddedOriginName), func(i int) bool { return paddedOriginName[i] == 0 })
+//@   decreases lastNonZero + 1
+//@ end
+
+// The issuer recovers exactly the name the client padded.
+//
+//@ lemma props C20
+func lemmaUnpadPad(name string) {
+	Vassume(len(name) == 0 || name[len(name)-1] != 0)
+	Vassert(unpadOriginName(padOriginName(name)) == name)
+}
+
+// The padded length depends only on the number of 32-byte blocks.
+//
+//@ lemma props C20
+func lemmaPadLenBuckets(a, b string) {
+	blocks := func(k int) int {
+		if k == 0 {
+			return 1
+		}
+		return (k + 31) / 32
+	}
+	Vassume(blocks(len(a)) == blocks(len(b)))
+	Vassert(len(padOriginName(a)) == len(padOriginName(b)))
+	Vassert(len(padOriginName(a)) == 32*blocks(len(a)))
+}
+
+// ---------------------------------------------------------------------------
+// Wire structures of the rate-limited token type (draft-ietf-privacypass-rate-limit-tokens).
+
+//@ func UnmarshalToken(data []byte) (token tokens.Token, err error)
+//@ props C01 C03 C04 C16
+//@ ensures (err == nil) == (len(data) >= 98+256)
+//@ ensures err == nil ==> token.TokenType == uint16(data[0])*256+uint16(data[1])
+//@ ensures err == nil ==> sameslice(token.Nonce, data[2:34]) && sameslice(token.Context, data[34:66]) && sameslice(token.KeyID, data[66:98]) && sameslice(token.Authenticator, data[98:98+256])
+//@ assigns none
+//@ alloc 0
+//@ end
+
+// struct { uint16 token_type = 0x0003; uint8 request_key[49]; uint8 name_key_id[32];
+//          opaque encrypted_token_request<1..2^16-1>; uint8 request_signature[96]; } TokenRequest
+//
+//@ spec
+func specEncT3Req(requestKey, nameKeyID, encrypted, signature string) string {
+	return U16(RateLimitedTokenType) + requestKey + nameKeyID + U16(uint16(len(encrypted))) + encrypted + signature
+}
+
+//@ func (r *RateLimitedTokenRequest) Marshal() (res []byte)
+//@ props C01 C04 C16 C20
+//@ safety C03 C04
+//@ requires len(r.EncryptedTokenRequest) <= 65535
+//@ requires r.raw == nil || string(r.raw) == specEncT3Req(string(r.RequestKey), string(r.NameKeyID), string(r.EncryptedTokenRequest), string(r.Signature))
+//@ ensures string(res) == specEncT3Req(string(r.RequestKey), string(r.NameKeyID), string(r.EncryptedTokenRequest), string(r.Signature))
+//@ ensures sameslice(res, r.raw) && r.raw != nil
+//@ assigns r.raw
+//@ end
+
+//@ func (r *RateLimitedTokenRequest) Unmarshal(data []byte) (ok bool)
+//@ props C01 C03 C04 C07 C16
+//@ let n = int(data[83])*256 + int(data[84])
+//@ ensures ok == (len(data) >= 85 && data[0] == 0 && data[1] == 3 && n >= 1 && len(data) == 85+n+96)
+//@ ensures ok ==> sameslice(r.RequestKey, data[2:51]) && sameslice(r.NameKeyID, data[51:83]) && sameslice(r.Signature, data[85+n:85+n+96])
+//@ ensures ok ==> string(r.EncryptedTokenRequest) == string(data[85:85+n]) && fresh(r.EncryptedTokenRequest)
+//@ ensures ok ==> (r.raw == nil || string(r.raw) == specEncT3Req(string(r.RequestKey), string(r.NameKeyID), string(r.EncryptedTokenRequest), string(r.Signature)))
+//@ assigns r.RequestKey, r.NameKeyID, r.EncryptedTokenRequest, r.Signature, r.raw
+//@ alloc len(data)
+//@ end
+
+//@ lemma props C04
+func lemmaT3RequestRoundTrip(src, dst *RateLimitedTokenRequest) {
+	Vassume(src != nil && dst != nil && src != dst && src.raw == nil)
+	Vassume(len(src.RequestKey) == 49 && len(src.NameKeyID) == 32 && len(src.Signature) == 96)
+	Vassume(len(src.EncryptedTokenRequest) >= 1 && len(src.EncryptedTokenRequest) <= 65535)
+	enc := src.Marshal()
+	ok := dst.Unmarshal(enc)
+	Vassert(ok)
+	Vassert(string(dst.RequestKey) == string(src.RequestKey) && string(dst.NameKeyID) == string(src.NameKeyID))
+	Vassert(string(dst.EncryptedTokenRequest) == string(src.EncryptedTokenRequest) && string(dst.Signature) == string(src.Signature))
+}
+
+//@ lemma props C04
+func lemmaT3RequestReencode(r *RateLimitedTokenRequest, b []byte) {
+	Vassume(r != nil)
+	in := string(b)
+	ok := r.Unmarshal(b)
+	Vassume(ok)
+	enc := r.Marshal()
+	Vassert(string(enc) == in)
+}
+
+//@ lemma props C04
+func lemmaT3RejectsOtherTypes(r *RateLimitedTokenRequest, b []byte) {
+	Vassume(r != nil && len(b) >= 2 && (b[0] != 0 || b[1] != 3))
+	Vassert(!r.Unmarshal(b))
+}
+
+// struct { uint8 token_key_id; uint8 blinded_msg[256]; opaque padded_origin_name<0..2^16-1>; } InnerTokenRequest
+//
+//@ spec
+func specEncInner(keyID uint8, blinded, padded string) string {
+	return B1(keyID) + blinded + U16(uint16(len(padded))) + padded
+}
+
+//@ func (r *InnerTokenRequest) Marshal() (res []byte)
+//@ props C01 C04 C16 C20
+//@ safety C03 C04
+//@ requires len(r.paddedOrigin) <= 65535
+//@ requires r.raw == nil || string(r.raw) == specEncInner(r.tokenKeyId, string(r.blindedMsg), string(r.paddedOrigin))
+//@ ensures string(res) == specEncInner(r.tokenKeyId, string(r.blindedMsg), string(r.paddedOrigin))
+//@ ensures sameslice(res, r.raw) && r.raw != nil
+//@ assigns r.raw
+//@ end
+
+//@ func (r *InnerTokenRequest) Unmarshal(data []byte) (ok bool)
+//@ props C01 C03 C04 C07 C16 C20
+//@ let n = int(data[257])*256 + int(data[258])
+//@ ensures ok == (len(data) >= 259 && len(data)-259 >= n)
+//@ ensures ok ==> r.tokenKeyId == data[0] && sameslice(r.blindedMsg, data[1:257])
+//@ ensures ok ==> string(r.paddedOrigin) == string(data[259:259+n]) && fresh(r.paddedOrigin)
+//@ ensures ok ==> (r.raw == nil || string(r.raw) == specEncInner(r.tokenKeyId, string(r.blindedMsg), string(r.paddedOrigin)))
+//@ assigns r.tokenKeyId, r.blindedMsg, r.paddedOrigin, r.raw
+//@ alloc len(data)
+//@ end
+
+//@ lemma props C04
+func lemmaInnerRoundTrip(src, dst *InnerTokenRequest) {
+	Vassume(src != nil && dst != nil && src != dst && src.raw == nil)
+	Vassume(len(src.blindedMsg) == 256 && len(src.paddedOrigin) <= 65535)
+	enc := src.Marshal()
+	ok := dst.Unmarshal(enc)
+	Vassert(ok)
+	Vassert(dst.tokenKeyId == src.tokenKeyId && string(dst.blindedMsg) == string(src.blindedMsg) && string(dst.paddedOrigin) == string(src.paddedOrigin))
+}
+
+//@ lemma props C04
+func lemmaInnerReencode(r *InnerTokenRequest, b []byte) {
+	Vassume(r != nil)
+	in := string(b)
+	ok := r.Unmarshal(b)
+	Vassume(ok)
+	enc := r.Marshal()
+	Vassert(len(enc) <= len(b) && string(enc) == in[:len(enc)])
+}
